@@ -50,6 +50,8 @@ def plan(tier, seed):
     pl.cases = c01.production_cases(want, reachable_only=True) + lexing.lexer_cases(want) + span_cases()
     pl.canaries = [canary()]
     pl.finite = [("C02-F/left-assoc-table", parsing.left_assoc_table), ("C02-F/grammar-facts", parsing.grammar_facts)]
+    from vfkit import lean as _leanc
+    pl.finite.append(("A6/Lean re-check of the composition lemmas L-TILE, L-LEX, L-LR", _leanc.compose_check('L-TILE', 'L-LEX', 'L-LR')))
     ntok = 4 if tier == "quick" else 6
 
     def roundtrip():
